@@ -61,6 +61,30 @@ def check_case(rep, case, wrap=False):
                           'C06 after update %d (got, expected) differ at %s; case %s'
                           % (k + 1, diff, tc.case_id(case)), {'case': case, 'diff': diff})
             return
+    # walking into the process node and through a port (Store.get_path with the
+    # process's own topology) arrives at the node R names (plain-path ports)
+    if not wrap:
+        loc = tuple(case['loc'])
+        for x in b.variables:
+            port = next(p for p in case['ports'] if p['name'] == x['port'])
+            if port['t'] != 'path' or port['kind'] in ('glob', 'glob2', 'output'):
+                continue
+            try:
+                via = eng.state.get_path(loc + ('proc', x['port']) + tuple(x['v']))
+                direct = eng.state.get_path(tuple(x['node']))
+            except Exception as e:
+                rep.violation(dict(sig, what='walk-through-process'),
+                              'C06 Store.get_path through the process node raised %r; case %s'
+                              % (e, tc.case_id(case)), {'case': case})
+                return
+            if via is not direct:
+                rep.violation(dict(sig, what='walk-through-process'),
+                              'C06 Store.get_path(%r) arrives at %r, the port variable is wired '
+                              'to %r; case %s' % (loc + ('proc', x['port']) + tuple(x['v']),
+                                                  via.path_for() if via is not None else None,
+                                                  tuple(x['node']), tc.case_id(case)),
+                              {'case': case})
+                return
     if getattr(b.probe, 'cached', b.update) != b.update:
         rep.violation(dict(sig, what='update-object'),
                       'C06 the update object the process returned was modified: %r became %r; '
